@@ -154,6 +154,12 @@ MULTI = {
         "e_imports.go": "package gen\n\nimport _ \"m/d\" // @ignore PKGO01\n// @immutable\n",
         "f_empty.go": "package gen",
     },
+    # nested directives with the same code list (inline under file-level), the nested one being the package's last directive,
+    # and an unsuppressed violation between the directives of another file
+    "nestedignore": {
+        "record.go": "package gen\n\nimport \"m/d\"\n\nvar zero d.T // @ignore CTOR03\n\nfunc Rename(p *d.T) {\n\tp.X = 1\n}\n\nvar one = d.T{X: 1} // @ignore CTOR01\n",
+        "zz_generated.go": "// @ignore IMM01\npackage gen\n\nimport \"m/d\"\n\nfunc genA(p *d.T) {\n\tp.X = 2\n}\n\nfunc genB(p *d.T) {\n\tp.X = 3 // @ignore IMM01\n}\n",
+    },
     # an alias of an annotated type declared in one file and used in files that do not import the declaring package
     "splitalias": {
         "alias.go": "package gen\n\nimport \"m/d\"\n\ntype Tok = d.PT\n\ntype Imm = d.T\n\ntype Tst = *d.TT\n\nvar Fn = d.PF\n\nvar Tf = d.TF\n",
@@ -168,6 +174,13 @@ def generated_programs():
     for name, src in GENERATED.items():
         out.append({"id": "C10_" + name, "pkgs": [{"path": "m/d", "name": "d", "files": [{"name": "d/d.go", "src": gen_all.D_SRC}]},
                                                     {"path": "m/gen", "name": "gen", "files": [{"name": "gen/%s.go" % name, "src": src}]}]})
+    # a package all of whose files lie under an excluded path (default exclude-paths: testdata), imported by an analysed package
+    out.append({"id": "C10_excludedpkg", "pkgs": [
+        {"path": "m/d", "name": "d", "files": [{"name": "d/d.go", "src": gen_all.D_SRC}]},
+        {"path": "m/xtestdatax/fix", "name": "fix", "files": [{"name": "xtestdatax/fix/fix.go",
+                                                              "src": "package fix\n\nimport \"m/d\"\n\n// Sample is immutable.\n// @immutable\ntype Sample struct{ X int }\n\nfunc Make() *d.T { return d.NewT() }\n"}]},
+        {"path": "m/gen", "name": "gen", "files": [{"name": "gen/use.go",
+                                                    "src": "package gen\n\nimport (\n\t\"m/d\"\n\t\"m/xtestdatax/fix\"\n)\n\nfunc f(s *fix.Sample, p *d.T) {\n\ts.X = 1\n\tp.X = 2\n\t_ = fix.Make()\n}\n"}]}]})
     for name, files in MULTI.items():
         out.append({"id": "C10_" + name, "pkgs": [{"path": "m/d", "name": "d", "files": [{"name": "d/d.go", "src": gen_all.D_SRC}]},
                                                     {"path": "m/gen", "name": "gen", "files": [{"name": "gen/" + f, "src": src} for f, src in sorted(files.items())]}]})
